@@ -2,6 +2,7 @@ import OpenFecVerif.Model.RS
 import OpenFecVerif.Model.Rfc5170
 import OpenFecVerif.Model.LdpcIT
 import OpenFecVerif.Model.Gauss
+import OpenFecVerif.Model.Parity2D
 import OpenFecVerif.Gen.Limits
 /-
 Session state machine of the public API for codecs 1 (RS GF(2^8)), 2 (RS GF(2^m)), 3 (LDPC-Staircase):
@@ -70,6 +71,9 @@ structure Session (σ : Type) where
   srcProv : TMap (Option Prov) := TMap.mk' none
   mlDone : Bool := false
   -- encoder
+  /-- codec 5 (2D parity): a linear binary code like LDPC-Staircase (`codec` is 3 internally: same decoders, same symbol
+  alphabet) with its own matrix construction, limits and control parameters -/
+  twoD : Bool := false
   enc : TMap (Option σ) := TMap.mk' none   -- the application's encoding_symbols_tab
   encLib : TMap Bool := TMap.mk' false    -- slot allocated by the library
 
@@ -140,8 +144,19 @@ def lastNullCheckX (n : Nat) (H : List (List Nat)) : Bool :=
 
 /-! ## set_fec_parameters -/
 
-/-- returns the new global PRNG state, the status and the configured session -/
-def setParams (IO : SymIO σ) (g : Nat) (s : Session σ) (p : Params) : Nat × Status × Session σ :=
+/-- limits of the 2D parity codec -/
+def withinLimits2D (p : Params) : Bool :=
+  1 ≤ p.k && 1 ≤ p.r && 1 ≤ p.len && p.k ≤ Parity2D.MAX_K && p.k + p.r ≤ Parity2D.MAX_N
+
+/-- of_set_fec_parameters of the 2D parity codec: no PRNG involved -/
+def setParams2D (g : Nat) (s : Session σ) (p : Params) : Nat × Status × Session σ :=
+  if !withinLimits2D p then (g, .fatal, s)
+  else match Parity2D.rows p.k p.r with
+    | none => (g, .fatal, s)
+    | some H => (g, .ok, { s with params := some p, H := H, extra := true, it := some (IT.init p.k H) })
+
+/-- returns the new global PRNG state, the status and the configured session (codecs 1, 2, 3) -/
+def setParamsStd (IO : SymIO σ) (g : Nat) (s : Session σ) (p : Params) : Nat × Status × Session σ :=
   -- RS-2^m initialises its limits as soon as the sizes are non-zero and m is acceptable
   let s1 : Session σ := if s.codec == 2 && (p.m == 4 || p.m == 8) && !(p.k == 0 || p.r == 0 || p.len == 0)
     then { s with maxInit := true, fieldM := p.m } else s
@@ -158,6 +173,9 @@ def setParams (IO : SymIO σ) (g : Nat) (s : Session σ) (p : Params) : Nat × S
       (g', .ok, { s1 with params := some p, H := M.rows, extra := M.extra, it := some it1 })
   else
     (g, .ok, { s1 with params := some p })
+
+def setParams (IO : SymIO σ) (g : Nat) (s : Session σ) (p : Params) : Nat × Status × Session σ :=
+  if s.twoD then setParams2D g s p else setParamsStd IO g s p
 
 /-! ## decoding -/
 
@@ -315,6 +333,8 @@ def step (IO : SymIO σ) (w : World σ) (op : Op) : World σ × String :=
   | .new sid codec role =>
     if codec == 1 || codec == 2 || codec == 3 then
       (put sid { codec := codec, role := role } w, "ok st=OK")
+    else if codec == 5 then
+      (put sid { codec := 3, role := role, twoD := true } w, "ok st=OK")
     else (w, "ok st=FATAL")
   | .params sid p =>
     match w.ses.get sid with
@@ -334,7 +354,11 @@ def step (IO : SymIO σ) (w : World σ) (op : Op) : World σ × String :=
     match w.ses.get sid with
     | none => bad
     | some s =>
-      if what == "maxk" || what == "maxn" then
+      if s.twoD then
+        if what == "maxk" then (w, s!"ok st=OK v={Parity2D.MAX_K}")
+        else if what == "maxn" then (w, s!"ok st=OK v={Parity2D.MAX_N}")
+        else (w, "ok st=ERROR v=0")
+      else if what == "maxk" || what == "maxn" then
         if s.codec == 2 && !s.maxInit then (w, "ok st=ERROR v=0")
         else
           let v := if what == "maxk" then maxK s.codec s.fieldM else maxN s.codec s.fieldM
@@ -353,7 +377,7 @@ def step (IO : SymIO σ) (w : World σ) (op : Op) : World σ × String :=
       | some p =>
         -- a temporary encoder session of the same codec and parameters builds the codeword
         -- (a configured session always carries accepted parameters; the guard makes that explicit)
-        let (g, H) := if s.codec == 3 && withinLimits 3 p then
+        let (g, H) := if s.twoD then (w.seed, s.H) else if s.codec == 3 && withinLimits 3 p then
             (match Rfc5170.create CSem.rne53 w.seed p.k p.r p.N1 p.seed.toNat with
              | (g, some M) => (g, M.rows)
              | (g, none) => (g, []))
